@@ -1148,6 +1148,32 @@ def roundtrip(fmt: Fmt, spec: Any) -> tuple[str, str, Any] | None:
     return None
 
 
+def brace_balance(fmt: Fmt, spec: Any) -> tuple[str, str, Any] | None:
+    """Text formats: the written file must be well-bracketed at token level (braces inside quoted strings do not count) -- checked with
+    the tokenizer alone, independently of the format's parser (which may stop early, or not implement a block)."""
+    from srctools.tokenizer import Tokenizer, Token, TokenSyntaxError
+    try:
+        text = limited(fmt.write, limited(fmt.build, spec))
+    except Exception:
+        return None                 # reported by the round trip
+    if not isinstance(text, str):
+        return None
+    depth = 0
+    try:
+        for tok, _ in Tokenizer(text, allow_escapes=fmt.name != 'vmt'):
+            if tok is Token.BRACE_OPEN:
+                depth += 1
+            elif tok is Token.BRACE_CLOSE:
+                depth -= 1
+                if depth < 0:
+                    return ('unbalanced-braces', 'closed-too-often', {'written': text[-400:]})
+    except TokenSyntaxError:
+        return None                 # reported by the round trip
+    if depth != 0:
+        return ('unbalanced-braces', 'never-closed', {'open_blocks_at_end_of_file': depth, 'written': text[-400:]})
+    return None
+
+
 # ------------------------------------------------------------------------------------------------ observer effect
 # A writer must not depend on whether somebody LOOKED at the value before: lazily created attributes (Sound.stack_start stores an
 # empty block on first read, Entry.data parses the blob on first read), caches, repr().  `observe` reads every property of every
